@@ -40,7 +40,7 @@ PROPS = {
                            "tbl_succeeded_doors_task", "tbl_failure_covered", "tbl_failure_canceling",
                            "tbl_failed_request_total", "C10_never_succeeds"]},
         keys=["status", "sequence", "staged"], offers="ids",
-        prof=dict(p_badexpr=0.25), hist=dict(p_pause=0.15, p_cancel=0.08, p_task_pause=0.1, p_lifecycle=0.3),
+        prof=dict(p_badexpr=0.4, bad_where=["publish", "when", "publish", "retry_when", "input"], max_tasks=4), hist=dict(p_pause=0.15, p_cancel=0.08, p_task_pause=0.25, p_lifecycle=0.3),
         monitor="C02", unproven=["state invariant paused|canceled => no active record is proved only at the doors (table level), not as a history invariant"],
     ),
     "C03": dict(
@@ -67,21 +67,21 @@ PROPS = {
         title="context = variables published by causal ancestors",
         theorems={JOIN: ["C06_delta_keys"], VALUES: ["C06_merge_later_wins", "C16_merge_preserves_values"], HISTORY: ["C18_context_fixed"]},
         keys=["contexts", "sequence", "staged", "output"], offers="full",
-        prof=dict(p_publish=0.8, p_clash=0.4, p_items=0.05, p_retry=0.05), hist=dict(p_fail=0.15),
+        prof=dict(p_publish=0.8, p_clash=0.4, p_items=0.05, p_retry=0.05, p_template=0.35, templates=[6, 6, 6, 0, 2, 5]), hist=dict(p_fail=0.15),
         monitor="C06", unproven=["C06_ctx_indices_exact (ancestor-exactness as a history invariant) not proved; search only"],
     ),
     "C07": dict(
         title="join runs once and only when satisfied",
         theorems={JOIN: ["C07_ready_iff_satisfied", "C07_barrier_requirement", "C07_unreachable_fails", "C07_check_statuses"], NEXT: ["C01_offer_from_staged"]},
         keys=["status", "staged", "errors", "sequence"], offers="ids",
-        prof=dict(p_join=0.7, p_join_count=0.3, max_tasks=7, p_template=0.35), hist=dict(p_fail=0.3, p_cancel=0.03),
+        prof=dict(p_join=0.7, p_join_count=0.3, max_tasks=7, p_template=0.4, templates=[0, 0, 0, 2, 6]), hist=dict(p_fail=0.3, p_cancel=0.03),
         monitor="C07", unproven=["C07_once (at most one start per satisfaction) not proved; count joins: known finding D2"],
     ),
     "C08": dict(
         title="outcome independent of completion order",
         theorems={NEXT: ["C01_offer_from_staged"], JOIN: ["C19_inbound_status_perm"]},
         keys=["status", "sequence"], offers="ids",
-        prof=dict(p_loop=0.0, p_retry=0.0, p_items=0.0, p_badexpr=0.0), hist=dict(fixed_outcomes=True, p_lifecycle=0.4, p_odd_terminal=0.0),
+        prof=dict(p_loop=0.0, p_retry=0.0, p_items=0.0, p_badexpr=0.0, p_template=0.4, templates=[4, 4, 0, 5, 6], p_delay=0.3), hist=dict(fixed_outcomes=True, p_lifecycle=0.4, p_odd_terminal=0.0),
         monitor="C08", unproven=["order independence of whole runs (C08_routefree, C08_commute) is relational and not proved; search only"],
     ),
     "C09": dict(
@@ -99,7 +99,7 @@ PROPS = {
                            "tbl_dormant_doors_task", "tbl_dormant_doors_wf", "tbl_active_doors_wf"],
                   NEXT: ["C10_no_offer_after_cancel"]},
         keys=["status", "staged", "sequence", "errors", "output"], offers="ids",
-        prof=dict(p_template=0.4), hist=dict(p_cancel=0.3, p_pause=0.08, p_fail=0.4), monitor="C10", unproven=[],
+        prof=dict(p_template=0.45, templates=[1, 1, 1, 0, 2, 4]), hist=dict(p_cancel=0.3, p_pause=0.08, p_fail=0.45), monitor="C10", unproven=[],
     ),
     "C11": dict(
         title="expression errors contained",
@@ -137,7 +137,7 @@ PROPS = {
     "C16": dict(
         title="values flow unchanged; evaluation pure; internals hidden",
         theorems={VALUES: ["C16_evaluate_plain_identity", "C16_merge_preserves_values", "C16_ctx_hides_internals"], JOIN: ["C06_delta_keys"]},
-        keys=["contexts", "output"], offers="full", prof=dict(p_publish=0.8), hist=dict(p_fail=0.1),
+        keys=["contexts", "output"], offers="full", prof=dict(p_publish=0.8, p_odd_strings=1.0, lang_jinja=0.5, p_use_y=0.6), hist=dict(p_fail=0.1),
         monitor="C16", unproven=["library behaviour (ujson, YAQL, Jinja) is not modelled; search only"],
     ),
     "C17": dict(
@@ -161,7 +161,7 @@ PROPS = {
     "C20": dict(
         title="every shorthand means its long form",
         theorems={PARAMS: ["C20_do_split"]},
-        keys=None, offers="full", prof=dict(), hist=dict(), monitor="C20",
+        keys=None, offers="full", prof=dict(p_odd_strings=0.9, p_publish=0.7), hist=dict(), monitor="C20",
         unproven=["inline parameter scanner round trip not proved; search only"],
     ),
 }
